@@ -1340,3 +1340,11 @@ Proof.
   rewrite lv_unpack_pack_app by assumption. cbn [bind].
   fold (lv_packet_len v). rewrite lv_rest_after. rewrite IH. reflexivity.
 Qed.
+
+(* EntityIdTlv.__eq__ : total, and equal exactly when the big-endian values agree *)
+Lemma entity_eqb_spec a b :
+  entity_eqb a b = Ok (be_decode (tlv_value a) =? be_decode (tlv_value b)) /\
+  (tlv_value a = tlv_value b -> entity_eqb a b = Ok true).
+Proof.
+  split; [reflexivity|]. intros H. unfold entity_eqb. rewrite H, Z.eqb_refl. reflexivity.
+Qed.
